@@ -170,7 +170,7 @@ func famC01(e *emitter, g *gen.G, thorough bool) {
 	nrand := 4
 	lens := directedLens
 	if thorough {
-		nrand = 120
+		nrand = 90
 		lens = nil
 		for i := 0; i <= 600; i++ { // every length up to 320 and around the second wrap point, every 4th beyond
 			if i <= 320 || i%4 == 0 || (i >= 508 && i <= 520) || i >= 596 {
@@ -381,7 +381,7 @@ func famC08(e *emitter, g *gen.G, thorough bool) {
 	vals = append(vals, math.NaN(), math.Float64frombits(0x7ff0000000000001), math.Float64frombits(0xfff8000000000000))
 	nr := 1500
 	if thorough {
-		nr = 100000
+		nr = 60000
 	}
 	for i := 0; i < nr; i++ {
 		vals = append(vals, g.Float64())
